@@ -148,6 +148,7 @@ def run_checks(pid, sid, patch, res, dst):
                 fired[q] = ["<exit 2>"]
     finally:
         subprocess.check_call(["git", "-C", REPO, "checkout", "--", "."])
+        subprocess.check_call(["git", "-C", REPO, "clean", "-fdq"])   # files the patch added
         shutil.rmtree("/tmp/seedverify_out", ignore_errors=True)
     res["checks_fired"] = fired
     res["caught_by_own_property"] = pid in fired
